@@ -5,6 +5,7 @@ import RModel.Lemmas.Edits
 import RModel.Lemmas.Matcher
 import RModel.Lemmas.Hunks
 import RModel.Lemmas.DiffLift
+import RModel.Gen.LineAfterColumn
 /-
   C15 — What the preview shows is what apply does.   (property theorems only)
 
@@ -20,7 +21,7 @@ open Hunks Edits Matcher
 theorem line_before_is_line (content : Bytes) (line col start stop : Nat) (text repl l : Bytes)
     (hl : lineOf content line = some l) (hv : Utf8.valid l = true) (h : Hunk) (how : How)
     (hg : hunkGeom content line col start stop text repl = .ok h how) : h.lineBefore = l := by
-  simp only [hunkGeom, hl, Matcher.lossy_of_valid hv] at hg
+  simp only [hunkGeom, hunkGeomG, hl, Matcher.lossy_of_valid hv] at hg
   split at hg
   · cases hg
   · cases hg; rfl
@@ -36,8 +37,22 @@ theorem line_after_single (content : Bytes) (line col start stop : Nat) (text re
   have hle := hpre.length_le
   simp only [List.length_drop] at hle
   have hcol : col < l.length := by omega
-  simp only [hunkGeom, hl, Matcher.lossy_of_valid hv, lineAfter, startsWithAt, hcol, if_true, hb, List.isPrefixOf_iff_prefix.mpr hpre, spliceAt]
+  simp only [hunkGeom, hunkGeomG, if_true, hl, Matcher.lossy_of_valid hv, lineAfter, startsWithAt, hcol, if_true, hb, List.isPrefixOf_iff_prefix.mpr hpre, spliceAt]
   exact ⟨_, rfl, rfl, rfl, rfl, rfl, rfl⟩
+
+/-- `line_after_single` for the planner AS IT IS: `Gen.lineAfterColumnIsByte` is re-extracted from scanner.rs on every run
+    (translate/line_after_column.py: which position does `generate_hunks` slice the line at?).  If the code starts to
+    splice at a character offset the flag flips to `false`, `decide` fails here and the check reports the broken proof —
+    and `C15_witness_char_column` below shows what then goes wrong. -/
+theorem line_after_single_current (content : Bytes) (line col start stop : Nat) (text repl l : Bytes)
+    (hl : lineOf content line = some l) (hv : Utf8.valid l = true)
+    (hne : text ≠ []) (hpre : text <+: l.drop col) (hb : isCharBoundary l col = true) :
+    ∃ h, hunkGeomG Gen.lineAfterColumnIsByte content line col start stop text repl = .ok h .splice ∧
+      h.lineBefore = l ∧ h.lineAfter = l.take col ++ repl ++ l.drop (col + text.length) := by
+  have hflag : Gen.lineAfterColumnIsByte = true := by decide
+  rw [hflag]
+  obtain ⟨h, h1, h2, h3, _⟩ := line_after_single content line col start stop text repl l hl hv hne hpre hb
+  exact ⟨h, h1, h2, h3⟩
 
 /-- the single-hunk 'after' line is the left-to-right splice of the line with that one edit -/
 theorem line_after_eq_spec (l : Bytes) (col : Nat) (text repl : Bytes) :
@@ -235,5 +250,18 @@ theorem startsWithAt_total (s : Bytes) (i : Nat) (p : Bytes) : startsWithAt s i 
   split
   · split <;> simp
   · simp
+
+/-- The byte column is needed.  A planner that splices at the CHARACTER offset misses the match as soon as a multi-byte
+    character precedes it; the `find` fallback then replaces the first textual occurrence of the variant on the line —
+    here the one embedded in `xold_namey` — so the preview shows `xbrand_new_namey é old_name` where apply writes
+    `xold_namey é brand_new_name`. -/
+theorem C15_witness_char_column :
+    let c := b!"xold_namey é old_name\n"
+    hunkGeomAtG false c 14 22 b!"old_name" b!"brand_new_name" =
+      .ok { line := 1, byteOffset := 14, charOffset := 13, start := 14, stop := 22, content := b!"old_name",
+            replace := b!"brand_new_name", lineBefore := c, lineAfter := b!"xbrand_new_namey é old_name\n" } .fallback ∧
+    hunkGeomAtG true c 14 22 b!"old_name" b!"brand_new_name" =
+      .ok { line := 1, byteOffset := 14, charOffset := 13, start := 14, stop := 22, content := b!"old_name",
+            replace := b!"brand_new_name", lineBefore := c, lineAfter := b!"xold_namey é brand_new_name\n" } .splice := by decide
 
 end C15
